@@ -41,6 +41,9 @@ def run(ctx):
     for cq, (hname, hy) in CF.CREATORS_V2.items():
         F, fn, fb, sv, hv = CF.traverse_facts(ctx, cq)
         cname = cq.split(":")[1]
+        if F.get("entry.call") is not None and F["entry.call"].value == CF.FLAT_ENTRY:
+            # a per-file construction of the tree is not wrong by BEP 52; the directory facts below do not describe it
+            F["entry.call"] = HF.Fact("?" + CF.FLAT_ENTRY, F["entry.call"].node, F["entry.call"].fn)
         spec = dict(CF.SPEC_TRAVERSE)
         spec["hasher"] = "%s(path, self.piece_length)" % hname
         spec["layer.value"] = "hasher.piece_layer"
@@ -59,7 +62,7 @@ CLAIM = {
     "text": "Partial: every BEP 52 fact that is visible in the shape of the code (block size, leaf hash input, padding counts and elements, guards and their strictness, order of piece-layer "
             "extraction and root padding, pairwise reduction, tree mirroring, empty-file rule, piece-layer membership) is extracted as a normal form from each of the three hashers and three "
             "creators and compared with the specification table. Equality of the computed roots with the specification for every file size additionally needs the read loops to deliver the "
-            "right blocks, which is not decided.",
+            "right blocks, which is not decided. C02.5 (points-to over the metafile dictionary): after assembly nothing drops, filters or replaces info/'file tree' or 'piece layers' (order-only copies and in-place re-keying accepted); the traversal is entered once on the content root; the single-file tree key is the recorded name; merkle_root does not modify a list its caller reads again.",
     "note": "Not decided: loop/end-flag behaviour of the readers for all sizes. A shape the extractor does not recognise is reported as undecided (exit 2), never as a violation.",
     "technique": "role-based fact extraction into piecewise integer-linear normal forms (reaching definitions, helper inlining), CFG dominance for ordering facts, comparison with the BEP 52 table",
     "design_ref": "DESIGN.md section 4, C02; section 3.8; appendix D.1",
